@@ -1,2 +1,5 @@
-/- placeholder driver for C10: replaced when the check for C10 is built -/
-def main : IO Unit := IO.println "not-built"
+import CashewsVerif.Driver.SerialDrv
+/- Driver for C10 (signed storage): the shared serializer protocol of `Driver/SerialDrv.lean`
+   over the model `Model/Serial.lean` (two-phase decode: `dec2` = decision before the unpickler,
+   `dec3` = classification after it). -/
+def main : IO Unit := CashewsVerif.Proto.mainLoop CashewsVerif.SerialDrv.step ()
